@@ -92,11 +92,12 @@ theorem C16_check_refl_atom_partial (e : Env) (f lvl : Nat) (t : Ty)
   · exact checkGeneral_refl_lit e ip f lvl c
   · exact checkGeneral_refl_ref e ip (f + 1) lvl n
 
-/-- current code: a `table<…>` instance whose arity is not 2 is not assignable to itself
-(known finding `C16-table-arity`) -/
-theorem C16_refl_table_arity_witness :
-    checkTop { decls := [] } (.tgen (.cons (.prim .string) .nil)) (.tgen (.cons (.prim .string) .nil))
-      = .notMatch := by
+/-- a `table<…>` instance of any arity is assignable to itself (finding `C16-table-arity`, fixed:
+equal arities are compared parameter by parameter) -/
+theorem C16_refl_table_any_arity :
+    checkTop { decls := [] } (.tgen (.cons (.prim .string) .nil)) (.tgen (.cons (.prim .string) .nil)) = .ok ∧
+    checkTop { decls := [] } (.tgen (TyL.ofList [.prim .string, .prim .integer, .prim .boolean]))
+      (.tgen (TyL.ofList [.prim .string, .prim .integer, .prim .boolean])) = .ok := by
   decide +kernel
 
 /-- `self` is not assignable to itself either (the dispatch of `check_general_type_compact` has no
